@@ -3,6 +3,7 @@ import json
 import re
 
 import facts
+import hirq as H
 import mustflow
 
 
@@ -574,3 +575,211 @@ def gate_min(F, fid, site_bb):
         if lo is not None and (best is None or lo > best):
             best = lo
     return best, why
+
+
+# ---- structural must-analysis over the HIR -------------------------------------------------------------------------------
+def hir_escapes(n):
+    """node contains a continue/break that leaves the current iteration (not inside a nested loop/closure)"""
+    if not H.is_node(n):
+        return False
+    if n[0] in ("continue", "break"):
+        return True
+    if n[0] in ("for", "loop", "closure"):
+        return False
+    return any(hir_escapes(c) for c in H.children(n))
+
+
+def hir_must(n, is_event, known=None):
+    """True when every path through the evaluation of `n` (loops may run zero times, closures may not be called, a `continue` /
+    `break` ends the path) evaluates a node for which is_event(node) holds. known(cond) may return 'pos' / 'neg' when the truth of
+    a condition already proves the event happened on the then- ('neg': else-) side."""
+    if not H.is_node(n):
+        return False
+    k = n[0]
+    if is_event(n):
+        return True
+    if k in ("for", "loop", "closure"):
+        return hir_must(n[3], is_event, known) if k == "for" else False
+    if k == "block":
+        for st in n[2]:
+            parts = [st[3], st[4]] if st[0] == "let" else [st[2]]
+            for p_ in parts:
+                if p_ is None:
+                    continue
+                if hir_must(p_, is_event, known):
+                    return True
+                if hir_escapes(p_):
+                    return False
+        return hir_must(n[3], is_event, known) if n[3] is not None else False
+    if k == "if":
+        if hir_must(n[2], is_event, known):
+            return True
+        kn = known(n[2]) if known else None
+        t = hir_must(n[3], is_event, known)
+        e = hir_must(n[4], is_event, known) if n[4] is not None else False
+        if kn == "pos":
+            return e
+        if kn == "neg":
+            return t
+        return t and e
+    if k == "match":
+        return hir_must(n[2], is_event, known) or all(hir_must(a[2], is_event, known) for a in n[3])
+    if k == "binary" and n[2] in ("And", "Or"):
+        return hir_must(n[3], is_event, known)
+    return any(hir_must(c, is_event, known) for c in H.children(n))
+
+
+def value_sub_total_rule(rep, F):
+    """Value::checked_sub / clamped_sub: when both sides hold assets the result is decided by the actual difference"""
+    rep.rule("SUB-total", "Value::checked_sub (and clamped_sub): in the arm where both values hold assets, MultiAsset::sub of the two bundles is evaluated on every path - the asset part of the result is the computed difference (or None when that difference is empty), never a shortcut taken from an ordering test that cannot tell 'nothing left' from 'incomparable'")
+    n = 0
+    for name in ("Value::checked_sub", "Value::clamped_sub"):
+        fid = find_fn(rep, F, name)
+        if not fid or fid not in F.hir:
+            continue
+        arm = None
+        for m in H.walk(F.hir[fid]["body"]):
+            if m[0] != "match":
+                continue
+            for pat, g, body in m[3]:
+                if pat and pat[0] == "ptuple" and len(pat[1]) == 2 and all(q and q[0] == "pts" and (H.pat_variant(q) or "").endswith("Some") for q in pat[1]):
+                    arm = (H.pat_bindings(pat), body)
+        if not arm:
+            rep.lost("%s: the (Some(lhs), Some(rhs)) arm was not found" % name)
+            continue
+        n += 1
+        rep.inst("SUB-total")
+        names, body = arm
+
+        def ev(x):
+            return x[0] == "mcall" and (x[3] or "").endswith("MultiAsset::sub") and H.path_str(H.strip(x[4])) == names[0] and x[5] and H.path_str(H.strip(x[5][0])) == names[1]
+        if not hir_must(body, ev):
+            rep.violation("SUB-total", name, "%s: when both values hold assets, some path yields the asset part without computing `%s.sub(%s)`: assets of the minuend that the subtrahend does not cover are dropped whenever the two bundles are incomparable (e.g. inputs {A: 5}, return {B: 5} -> difference None instead of {A: 5})" % (name, names[0], names[1]), {})
+    rep.floor("value subtraction functions with a both-assets arm", 1, n)
+
+
+def cancel_rule(rep, F, file_prefixes):
+    """`acc -= g(v); acc += g(v)` with the same callee and the same value v is a no-op: a size model that replaces the header of
+    the old count by the header of the new count must evaluate g on two different counts"""
+    from collections import defaultdict
+    rep.rule("CANCEL", "no accumulator is decreased and increased by the result of the same function applied to the same value within one function (a self-cancelling update: the size model must take the old element count for the part it removes and the new count for the part it adds)")
+    n_fn = 0
+    n_pairs = 0
+    for fid, fn in F.fns.items():
+        if "/tests/" in fn["file"] or F.is_derived(fid) or not any(fn["file"].endswith(p) or p in fn["file"] for p in file_prefixes):
+            continue
+        n_fn += 1
+        defs = defaultdict(list)
+        for bi, bb in enumerate(fn["bbs"]):
+            if bb["c"]:
+                continue
+            for st in bb["st"]:
+                if st[1] == "=":
+                    defs[st[2]].append(("st", st[3]))
+            t = bb["t"]
+            if t[1] == "call":
+                defs[t[4]].append(("call", t))
+
+        def root(op, depth=0):
+            """('k', const) | ('l', local) | ('call', callee, arg roots)"""
+            if op[0] == "k":
+                return ("k", str(op[1]))
+            pl = op[1]
+            if "|" in pl:
+                return ("place", pl)   # a field / deref place may be written between the two uses: never "the same value"
+            if depth > 8:
+                return ("l", pl)
+            ds = defs.get(pl, [])
+            if len(ds) == 0:
+                return ("l", pl)       # a parameter: one value throughout
+            if len(ds) > 1:
+                return ("place", pl)   # re-assigned local: may differ between the two uses
+            kind, x = ds[0]
+            if kind == "call":
+                if depth == 0:
+                    return ("call", x[2].get("to") or "?", tuple(root(a, depth + 1) for a in x[3]))
+                return ("inst", pl)   # the result of one particular call (single definition): one value
+            if x[0] == "use":
+                return root(x[1], depth + 1)
+            if x[0] == "cast":
+                r = root(x[2], depth + 1)
+                return r
+            return ("l", pl)
+
+        subs, adds = [], []
+        for bi, bb in enumerate(fn["bbs"]):
+            if bb["c"]:
+                continue
+            for st in bb["st"]:
+                if st[1] != "=" or st[3][0] != "bin":
+                    continue
+                op = st[3][1]
+                if op in ("Sub", "SubWithOverflow"):
+                    r = root(st[3][3])
+                    if r[0] == "call":
+                        subs.append((st[3][2][1] if st[3][2][0] != "k" else None, r))
+                elif op in ("Add", "AddWithOverflow"):
+                    for acc, other in ((st[3][2], st[3][3]), (st[3][3], st[3][2])):
+                        r = root(other)
+                        if r[0] == "call":
+                            adds.append((acc[1] if acc[0] != "k" else None, r))
+        for sa, sr in subs:
+            for aa, ar in adds:
+                n_pairs += 1
+                if sr == ar and sa is not None and sa == aa and all(x[0] in ("l", "k", "inst") for x in sr[2]) and sr[2]:
+                    rep.violation("CANCEL", "%s|%s" % (F.key(fid), sr[1].rsplit("::", 1)[-1]), "%s subtracts and adds %s of the same value to the same accumulator: the update cancels out (the header of the element count before the insertion must be replaced by the header of the count after it) - sizes are under-predicted when the count crosses a CBOR width boundary (24, 256, ...)" % (F.key(fid), sr[1].rsplit("::", 1)[-1]), {})
+    rep.inst("CANCEL", n_fn)
+    rep.floor("functions scanned for self-cancelling updates", 10, n_fn)
+
+
+def boot_attr_rule(rep, F):
+    """a bootstrap witness (real or placeholder) carries the attributes of the address it witnesses"""
+    import fieldflow as ff
+    rep.rule("BOOT-attr", "every BootstrapWitness::new outside the decoders takes its `attributes` argument directly from `attributes()` of the Byron address parameter it witnesses: the attributes (derivation payload, protocol magic) are the only variable-size part of a bootstrap witness, so a placeholder built from anything else mis-predicts size and fee for Daedalus-style addresses")
+    n = 0
+    for fid, fn in F.fns.items():
+        if "/tests/" in fn["file"] or F.is_derived(fid) or "/serialization/" in fn["file"]:
+            continue
+        for c in F.calls(fid):
+            if not (c.to or "").endswith("BootstrapWitness::new"):
+                continue
+            n += 1
+            rep.inst("BOOT-attr")
+            t = fn["bbs"][c.bb]["t"]
+            d = direct_call_of(fn, t[3][3]) if len(t[3]) >= 4 else None
+            ok = False
+            if d and d[1].endswith("ByronAddress::attributes"):
+                org = ff.Origins(F, fid)
+                recv = fn["bbs"][d[0]]["t"][3][0]
+                o = org.of_operand(recv)
+                if any(x.startswith("arg:") for x in o) and not any(x.startswith("call:") and "ByronAddress" in x and not x.split("@")[0].endswith("attributes") for x in o):
+                    ok = True
+            if not ok:
+                rep.violation("BOOT-attr", F.key(fid), "%s builds a bootstrap witness whose attributes are not `attributes()` of the address handed to it (direct definition: %s): for a Daedalus-style address (attributes ~34 bytes longer than Icarus') the witness is shorter than the real one, full_size / min_fee come out too low and build_tx accepts the under-paid fee" % (F.key(fid), d[1] if d else "not a direct call result"), {})
+    rep.floor("BootstrapWitness::new sites outside decoders", 3, n)
+
+
+def boot_size_each_rule(rep, F):
+    """the batcher's witness size model adds the size of each Byron address's own bootstrap witness"""
+    import fieldflow as ff
+    import mustpass as mp
+    rep.rule("BOOT-size-each", "WitnessesCalculator::add_boostrap evaluates get_boostrap_witness_size on its own address argument on every path (the call post-dominates the entry, is not deferred into a closure / cache) and adds the result to total_size: bootstrap witnesses differ in size with the address attributes, a size remembered from another address under-predicts the transaction size")
+    fid = find_fn(rep, F, "WitnessesCalculator::add_boostrap")
+    if not fid:
+        return
+    fn = F.fns[fid]
+    rep.inst("BOOT-size-each")
+    cs = [c for c in F.calls(fid) if (c.to or "").endswith("get_boostrap_witness_size")]
+    pd, _ = mp.postdominators(fn)
+    org = ff.Origins(F, fid)
+    ok = False
+    for c in cs:
+        t = fn["bbs"][c.bb]["t"]
+        if c.bb in pd.get(0, set()) and "arg:2" in org.of_operand(t[3][0]):
+            # the result reaches total_size
+            for bb in fn["bbs"]:
+                for st in bb["st"]:
+                    if st[1] == "=" and st[2].endswith(":total_size") and any(x.startswith("call:") and "get_boostrap_witness_size" in x for x in org.of_place(st[2].split("|")[0]) | (org.of_operand(st[3][1]) if st[3][0] == "use" else set())):
+                        ok = True
+    if not ok:
+        rep.violation("BOOT-size-each", "WitnessesCalculator::add_boostrap", "add_boostrap does not price its own address on every call (get_boostrap_witness_size(address) is %s): with an Icarus address first and Daedalus-style addresses after it the predicted size is ~34 bytes short per witness and create_send_all returns transactions above max_tx_size" % ("conditional or not applied to the argument" if cs else "not called directly - deferred into a closure or cache"), {})
